@@ -91,6 +91,19 @@ func (o *Obl) base() string {
 	return o.Name
 }
 
+// ledgerName: the name under which an obligation is listed in the ledger. Call-site obligations (atcall, panic) carry
+// the source text of the call in braces; the ledger lists them without it, so that a harmless edit of the call's text
+// (a renamed local) does not look like a deleted obligation.
+func (o *Obl) ledgerName() string {
+	n := o.base()
+	if o.Kind == "atcall" || o.Kind == "panic" {
+		if i := strings.Index(n, "{"); i > 0 && strings.HasSuffix(n, "}") {
+			n = n[:i]
+		}
+	}
+	return n
+}
+
 func ledgerKind(k string) bool {
 	return k == "post" || k == "panic" || k == "impl" || k == "implpre" || k == "lemma" || k == "alloc" || k == "table" || k == "atcall" || strings.HasPrefix(k, "inv")
 }
@@ -151,9 +164,9 @@ func (e *Engine) checkProperty(prop, tier string, par int, writeLedger bool) int
 			if o.Dep {
 				continue // obligations of functions the property only relies on are listed in the ledgers of their own properties
 			}
-			if (ledgerKind(o.Kind) || (o.Kind == "pre" && strings.Contains(o.Name, "#pre.go."))) && !seen[o.base()] {
-				seen[o.base()] = true
-				n := o.base()
+			if (ledgerKind(o.Kind) || (o.Kind == "pre" && strings.Contains(o.Name, "#pre.go."))) && !seen[o.ledgerName()] {
+				seen[o.ledgerName()] = true
+				n := o.ledgerName()
 				if hasProp(o.Props, "thorough") || (o.fc != nil && o.fc.c != nil && o.fc.c.ThoroughOnly) {
 					n += " @thorough"
 				}
@@ -223,6 +236,7 @@ func (e *Engine) checkProperty(prop, tier string, par int, writeLedger bool) int
 	gen := map[string]bool{}
 	for _, o := range rr.obls {
 		gen[o.base()] = true
+		gen[o.ledgerName()] = true
 	}
 	for _, l := range ledger {
 		if strings.HasSuffix(l, " @thorough") {
